@@ -20,7 +20,7 @@ type Program struct {
 	Fset     *token.FileSet
 	Pkgs     []*packages.Package
 	SSA      *ssa.Program
-	SSAPkgs  map[string]*ssa.Package // by package path
+	SSAPkgs  map[string]*ssa.Package  // by package path
 	Funcs    map[string]*ssa.Function // by canonical name (see funcKey)
 	RepoDir  string
 	RepoPkgs map[string]bool // package paths that belong to the repository under verification
@@ -41,7 +41,7 @@ func loadProgram(dir string, patterns []string) (*Program, error) {
 		Fset:       fset,
 		BuildFlags: []string{"-tags=verif"},
 		Env:        append(os.Environ(), "GOFLAGS=-mod=mod", "GOPROXY=off", "GOSUMDB=off", "GOTOOLCHAIN=local"),
-		ParseFile: nil,
+		ParseFile:  nil,
 	}
 	pkgs, err := packages.Load(cfg, patterns...)
 	if err != nil {
